@@ -20,6 +20,8 @@ conv_mod.np = nps
 file_mod.np = nps
 import dliswriter.logical_record.iflr_types.frame_data as fd_mod
 fd_mod.np = nps
+import dliswriter.logical_record.eflr_types.frame as frame_mod
+frame_mod.np = nps          # the frame set-up casts the index column (np.asarray(...).astype(...))
 
 DT_NAMES = ['int8', 'int16', 'int32', 'uint8', 'uint16', 'uint32', 'float32', 'float64']
 DT_CODE = [12, 13, 14, 15, 16, 17, 2, 7]
